@@ -105,6 +105,10 @@ def spec_c07(ctx, case, x):
                     if pasg.get(vm) != asg[vm] or pw != w:
                         what = (nodes[i]["id"], f"{vm}:{kind}", exp, [nodes[p]["id"]])
                         bad.append(("producer-of-another-object" if vm not in pasg else "wrong-variant", what))
+                    elif any(u in asg and pasg[u] != asg[u] for u in pasg):
+                        # the producer was composed with another variant of a vm it shares with the child
+                        bad.append(("shared-vm-variant-differs",
+                                    (nodes[i]["id"], f"{vm}:{kind}", exp, [nodes[p]["id"]])))
             if sorted(set(obs_names)) != exp:
                 missing = sorted(set(exp) - set(obs_names))
                 spurious = sorted(set(obs_names) - set(exp))
